@@ -1,6 +1,6 @@
 From Coq Require Import ZArith List Bool Reals Lra.
 From Flocq Require Import Core BinarySingleNaN.
-Require Import GV.FloatBase GV.FloatLemmas GV.AngleM GV.AngleProofs GV.GeonumM GV.GeonumProofs GV.TraitsM GV.NewProofs GV.CtorProofs GV.ClosureProofs GV.SumUpper.
+Require Import GV.FloatBase GV.FloatLemmas GV.AngleM GV.AngleProofs GV.GeonumM GV.GeonumProofs GV.TraitsM GV.NewProofs GV.CtorProofs GV.ClosureProofs GV.SumUpper GV.PiBounds GV.TrigProofs GV.DotValue GV.DirProofs GV.CommProofs.
 Open Scope R_scope.
 Require Import GV.Properties.C14.
 Check C14_same : forall (L : libm) a b, aeqb (ang a) (ang b) = true ->
@@ -53,3 +53,7 @@ Check C14_upper_inhabited :
   (0 <= blade (ang a) + blade (ang b) < 2 ^ 40)%Z /\
   fin (atan2F trivial_libm zero zero) /\ Rabs (R_ (atan2F trivial_libm zero zero)) <= R_ PI.
 Print Assumptions C14_upper_inhabited.
+Check C14_general_commutes : forall (L : libm) a b, aeqb (ang a) (ang b) = false -> aeqb (ang b) (ang a) = false ->
+  aeqb (add_vv (ang a) (new one one)) (ang b) || aeqb (add_vv (ang b) (new one one)) (ang a) = false ->
+  ang (gadd_vv L a b) = ang (gadd_vv L b a).
+Print Assumptions C14_general_commutes.
